@@ -213,6 +213,9 @@ func leavesOf(t types.Type) []leaf {
 }
 
 func computeLeaves(t types.Type) []leaf {
+	if _, ok := t.(*types.TypeParam); ok {
+		return []leaf{{".tp", IntS}} // values of a type parameter: one uninterpreted scalar (only == is used)
+	}
 	if isTimeTime(t) {
 		return []leaf{{".t", IntS}}
 	}
@@ -325,6 +328,9 @@ func Flatten(v Val) []*Term {
 
 // Unflatten rebuilds a value of type t from leaf terms; returns remaining terms.
 func Unflatten(t types.Type, ts []*Term) (Val, []*Term) {
+	if _, ok := t.(*types.TypeParam); ok {
+		return VOpaque{ts[0], t}, ts[1:]
+	}
 	if isTimeTime(t) {
 		return VTime{ts[0]}, ts[1:]
 	}
